@@ -72,6 +72,9 @@ pub struct HCfg {
     #[serde(default)]
     pub admit_throttle_mod: u64,
     pub indexer_shards: usize,
+    /// build the cache without an event listener (the hand-off of evicted entries must not depend on one)
+    #[serde(default)]
+    pub no_listener: bool,
 }
 
 impl HCfg {
@@ -97,6 +100,7 @@ impl HCfg {
             admit_reject_mod: 0,
             admit_throttle_mod: 0,
             indexer_shards: 4,
+            no_listener: false,
         }
     }
 
@@ -246,12 +250,11 @@ pub async fn open(cfg: &HCfg, dir: &std::path::Path, ctl: &Controls, recover: Re
         Policy::WriteOnEviction => HybridCachePolicy::WriteOnEviction,
         Policy::WriteOnInsertion => HybridCachePolicy::WriteOnInsertion,
     };
-    HybridCacheBuilder::new()
-        .with_name("vh")
-        .with_policy(policy)
-        .with_flush_on_close(cfg.flush_on_close)
-        .with_event_listener(Arc::new(HListener(ctl.log.clone())))
-        .memory(cfg.mem_capacity)
+    let mut b = HybridCacheBuilder::new().with_name("vh").with_policy(policy).with_flush_on_close(cfg.flush_on_close);
+    if !cfg.no_listener {
+        b = b.with_event_listener(Arc::new(HListener(ctl.log.clone())));
+    }
+    b.memory(cfg.mem_capacity)
         .with_shards(cfg.mem_shards)
         .with_eviction_config(cfg.algo.eviction_config())
         .with_hash_builder(DivHasher { div: cfg.hash_div.max(1) })
